@@ -4,6 +4,7 @@ import (
 	"context"
 	"encoding/json"
 	"fmt"
+	"runtime"
 	"strings"
 	"testing"
 
@@ -20,8 +21,10 @@ import (
 // relay. Correctly signed events with arbitrary text in content and tag values
 // (written by the harness's own JSON writer, escaped spellings included) must
 // reach the handler behind Relay.ServeHTTP; an altered copy must not.
+const c01GateRule = "gate: per case one WebSocket connection to a relay with a recording handler, 1-6 EVENT frames each carrying a freshly signed event (content and tag values over all Unicode scalar values plus snippets that look like JSON syntax, member names or escapes) or an altered copy of one (content, created_at, kind, tag, pubkey, id digit, sig digit); the handler must have received exactly the genuine ones, in order, equal in all seven fields; non-trivial = at least one genuine event with a character outside printable ASCII or a backslash and at least one altered copy; distinct by hash of the frames ; concurrent twins: 3-8 connections to one relay send, at the same moment and for 20-60 rounds, one or two genuine copies of a freshly signed event and copies with the same id whose signature, content or created_at was altered: exactly the genuine copies reach the handler"
+
 func TestC01Gate(t *testing.T) {
-	col := ev.For("C01").SetRule("gate: per case one WebSocket connection to a relay with a recording handler, 1-6 EVENT frames each carrying a freshly signed event (content and tag values over all Unicode scalar values plus snippets that look like JSON syntax, member names or escapes) or an altered copy of one (content, created_at, kind, tag, pubkey, id digit, sig digit); the handler must have received exactly the genuine ones, in order, equal in all seven fields; non-trivial = at least one genuine event with a character outside printable ASCII or a backslash and at least one altered copy; distinct by hash of the frames")
+	col := ev.For("C01").SetRule(c01GateRule)
 	rapid.Check(t, func(t *rapid.T) {
 		h := newRecHandler()
 		opt := openOptions()
@@ -137,5 +140,95 @@ func TestC01Gate(t *testing.T) {
 		}
 		col.Label("path:relay-gate")
 		col.Case(special && altered, hx.JSON(texts), desc)
+	})
+}
+
+// TestC01TwinsGate: the same signed event and copies of it that differ only in the
+// signature (same id) arrive on several connections of one relay at the same moment. The
+// verdict on one frame must not depend on what another connection is sending: the genuine
+// copies reach the handler, the altered ones never do. Sequential traffic cannot tell a
+// verdict computed per frame from one shared between frames that look alike.
+func TestC01TwinsGate(t *testing.T) {
+	col := ev.For("C01").SetRule(c01GateRule)
+	rapid.Check(t, func(t *rapid.T) {
+		h := newRecHandler()
+		rig := newWSRig(openOptions(), h)
+		defer rig.close()
+		nc := rapid.IntRange(3, 8).Draw(t, "connections")
+		rounds := rapid.IntRange(20, 60).Draw(t, "rounds")
+		ngenuine := rapid.IntRange(1, 2).Draw(t, "genuine_copies")
+		alter := rapid.SampledFrom([]string{"sig-digit", "sig-digit", "content", "created_at"}).Draw(t, "alteration")
+		desc := map[string]any{"mode": "concurrent-twins", "connections": nc, "rounds": rounds, "genuine_copies_per_round": ngenuine, "alteration": alter}
+		conns := make([]*websocket.Conn, nc)
+		for i := range conns {
+			c, err := dial(rig.url)
+			if err != nil {
+				t.Fatalf("dial: %v", err)
+			}
+			defer c.CloseNow()
+			startReader(c)
+			conns[i] = c
+		}
+		ctx := context.Background()
+		for r := 0; r < rounds; r++ {
+			e := &mocrelay.Event{Kind: 1, CreatedAt: int64(1700000000 + r), Tags: []mocrelay.Tag{}, Content: fmt.Sprintf("twin %d", r)}
+			gen.Sign(e, gen.Keys[r%gen.NKeys])
+			texts := make([]string, nc)
+			for i := range texts {
+				x := gen.CloneEvent(e)
+				if (i+r)%nc >= ngenuine {
+					switch alter {
+					case "sig-digit":
+						x.Sig = flipHex(x.Sig, (i*17+r)%128)
+					case "content": // same id and signature, another content
+						x.Content += "!"
+					case "created_at":
+						x.CreatedAt++
+					}
+				}
+				b, _ := json.Marshal([]any{"EVENT", x})
+				texts[i] = string(b)
+			}
+			gate := make(chan struct{})
+			errs := make(chan error, nc)
+			for i, c := range conns {
+				go func(i int, c *websocket.Conn) {
+					<-gate
+					for y := 0; y < (i*7+r)%23; y++ { // stagger by a few scheduler yields
+						runtime.Gosched()
+					}
+					errs <- c.Write(ctx, websocket.MessageText, []byte(texts[i]))
+				}(i, c)
+			}
+			close(gate)
+			for range conns {
+				if err := <-errs; err != nil {
+					hx.Fail(t, ev.Failure{Property: "C01", Signature: "gate-connection-lost", Clause: "the connection accepts EVENT frames", Case: desc, Observed: err.Error()})
+				}
+			}
+			sentinel := fmt.Sprintf("%stwins%d", sentinelPrefix, r)
+			for _, c := range conns {
+				if err := c.Write(ctx, websocket.MessageText, []byte(`["CLOSE","`+sentinel+`"]`)); err != nil {
+					hx.Fail(t, ev.Failure{Property: "C01", Signature: "gate-connection-lost", Clause: "the connection accepts frames", Case: desc, Observed: err.Error()})
+				}
+				if _, err := readUntilNotice(c, sentinel); err != nil {
+					hx.Fail(t, ev.Failure{Property: "C01", Signature: "gate-connection-lost", Clause: "the connection stays usable after EVENT frames", Case: desc, Observed: err.Error()})
+				}
+			}
+			got := h.take()
+			b, _ := json.Marshal(gen.Norm(&mocrelay.ClientEventMsg{Event: e}))
+			var want []string
+			for i := 0; i < ngenuine; i++ {
+				want = append(want, string(b))
+			}
+			if hx.JSON(got) != hx.JSON(want) {
+				desc["round"] = r
+				desc["frames"] = texts
+				hx.Fail(t, ev.Failure{Property: "C01", Signature: "gate-authenticity-concurrent", Clause: "exactly the correctly signed events reach the handler behind the relay, whatever other connections send at the same moment (an altered copy is not authentic, the genuine one is)",
+					Case: desc, Observed: hx.JSON(got), Expected: hx.JSON(want)})
+			}
+		}
+		col.Label("path:relay-gate-concurrent-twins")
+		col.Case(true, hx.JSON(desc), func() any { return desc })
 	})
 }
